@@ -718,7 +718,10 @@ func (x *X) assert(c *T, msg, knownID string, sig *T) {
 		return
 	}
 	if x.replaying() {
-		// checked on an earlier path with the same prefix (pc implies c wherever it held)
+		// checked on an earlier path with the same prefix
+		if !x.Cfg.NoLemmas {
+			x.addPC(c) // proven assertions serve as lemmas for later queries
+		}
 		return
 	}
 	neg := x.B.Not(c)
@@ -744,8 +747,8 @@ func (x *X) assert(c *T, msg, knownID string, sig *T) {
 		}
 	}
 	// continue under the assertion (later assertions are checked assuming earlier ones)
-	if r == smt.Unsat && !open {
-		// pc implies c: adding it would only burden later queries (e.g. checksum equalities)
+	if r == smt.Unsat && !open && x.Cfg.NoLemmas {
+		// pc implies c; for checksum-style equalities adding it only burdens later queries
 		return
 	}
 	r3, _ := x.check([]*T{c}, nil)
